@@ -62,7 +62,7 @@ func c15GenGo(r *rand.Rand, depth int) c15GoVal {
 	case k == 0:
 		return c15GoVal{v: nil, wantType: "undefined", canon: "undef", back: nil}
 	case k == 1:
-		s := pick(r, []string{"", "a", "héllo", "日本語", "\xff\xfe", "x y", "123"})
+		s := pick(r, []string{"", "a", "héllo", "日本語", "\xff\xfe", "x y", "123", "010", "0123", "08", "-007", "+5", "0x1F", "0b11", "0o17", "1_000", " 7", "7 ", "1e3", "2.50", ".5", "5.", "0x1p4", "1_0.5", "Inf", "-0"})
 		return c15GoVal{v: s, wantType: "string", canon: fmt.Sprintf("s%q", s), back: s}
 	case k == 2:
 		i := pick(r, []int64{0, 1, -1, 42, math.MaxInt64, math.MinInt64, int64(r.Intn(100000))})
